@@ -39,7 +39,7 @@ def corrupt(c, rng):
     kw = dict(c.size_kwargs())
     kw.update(c.extra_kwargs)
     desc = c.desc
-    kind = rng.choice(["dim_changed", "tensor_removed", "tensor_added", "garbage", "axis_renamed", "axis_dropped", "axis_duplicated",
+    kind = rng.choice(["dim_changed", "dim_zero", "tensor_removed", "tensor_added", "garbage", "axis_renamed", "axis_dropped", "axis_duplicated",
                        "bracket_moved", "kw_removed", "kw_contradicted", "kw_float", "kw_negative", "arrow_doubled", "nontensor_arg"])
     must_fail = False
     if kind == "dim_changed":
@@ -50,6 +50,16 @@ def corrupt(c, rng):
             j = rng.randrange(len(sh))
             sh[j] += rng.choice([1, 2])
             arrays[i] = np.zeros(sh, dtype=arrays[i].dtype)
+    elif kind == "dim_zero":
+        # a zero-sized dimension (possibly contradicting a size that is known otherwise): any documented outcome, never an internal one
+        cands = [i for i, a in enumerate(arrays) if a.ndim > 0]
+        if cands:
+            i = rng.choice(cands)
+            sh = list(arrays[i].shape)
+            sh[rng.randrange(len(sh))] = 0
+            arrays[i] = np.zeros(sh, dtype=arrays[i].dtype)
+            if rng.random() < 0.5:
+                kw.update({k: v for k, v in c.all_axes().items() if rng.random() < 0.5})
     elif kind == "tensor_removed" and arrays:
         arrays = arrays[:-1]
         must_fail = True
@@ -150,6 +160,9 @@ def rule_breaking(rng):
         ("duplicate_vectorized_output_axis", "sum", f"{A} [{B}] -> {A} {A}", [z(A, B)]),
         ("reduce_output_has_reduced_axis", "sum", f"{A} [{B}] -> {A} {B}", [z(A, B)]),
         ("missing_output", "dot", f"{A} [{B}], [{B}] {C} -> ", [z(A, B), z(B, C)]),
+        ("implicit_output_ambiguous", "add", f"{A} {B}, {B} {A}", [z(A, B), z(B, A)]),
+        ("implicit_output_ambiguous", "multiply", f"{A} {B} {C}, {C} {A} {B}", [z(A, B, C), z(C, A, B)]),
+        ("implicit_output_ambiguous", "where", f"{A} {B}, {B} {A}, {A}", [z(A, B) > 0, z(B, A), z(A)]),
     ]
     return [(k, fn, d, arrs, {}) for k, fn, d, arrs in t]
 
@@ -247,7 +260,7 @@ def run(ctx):
         ctx.sample({"corruption": it[0], "fn": it[1], "desc": it[2], "kwargs": {k: repr(v) for k, v in it[4].items()}})
     ctx.coverage.update({
         "evaluations": len(items),
-        "rule": "single-edit corruptions of generated valid calls (14 kinds), calls breaking one stated rule of their operation (rule:*, all "
+        "rule": "single-edit corruptions of generated valid calls (15 kinds), calls breaking one stated rule of their operation (rule:*, all "
                 "must be rejected), the solve_* / matches / check entry points, random token strings; distinct_nontrivial = distinct (function, description, argument shapes)",
         "input_distribution": {"corruption": kinds, "outcome_classes": outcomes},
     })
